@@ -1,5 +1,5 @@
 \* exhaustive (thorough): 3 temperatures, all 15 kind pairs x 24 constructions, every behaviour of up to 3 calls
-CONSTANTS NT = 3  NV = 1  MaxLevel = 4
+CONSTANTS NT = 3  NV = 1  MaxLevel = 3
   KindChoices <- McKindsAll  TempChoices <- McTempsAll3  LinkPairs <- McLinks
 INIT Init
 NEXT NextB
